@@ -158,6 +158,7 @@ func streamIsolation(o *Out, r *rand.Rand, n int, thorough bool) {
 	if r1.err != nil || len(r2.trace) != 2 || r2.trace[0] != r2.trace[1] || !strings.Contains(r2.trace[0], "756e7365656e") {
 		o.Fail(Failure{Oracle: "environments-isolated", Key: "env-leak", Input: "secret = 7 in one environment; read in another", Detail: fmt.Sprint(r2.trace, r2.err)})
 	}
+	isolationTypes(o)
 	// hidden shared state: a run that writes through every handle it can obtain (pointers to computed values, elements of
 	// literals, imported package tables, builtin results) must not change what an unrelated run computes afterwards
 	probeSrc := "probe([2 + 4, 1 - 2, 0 * 9, 4000 + 95, len(\"abc\"), [1, 2][0], \"a\" + \"b\", 1.5 * 2, true && true, nil ?? 7, {\"k\": 6}.k, -(-6), 6 % 7, 3 << 1, 13 >> 1, 6 | 0, 7 & 6])"
@@ -221,4 +222,119 @@ func firstDiff(a, b string) string {
 		}
 	}
 	return fmt.Sprintf("lengths %d vs %d", len(a), len(b))
+}
+
+// typeSrcs use type names inside plain and composite type expressions; what a name means is decided by the environment.
+var typeSrcs = []string{
+	"x = make(T)\nprobe(x)",
+	"probe(make([]T, 2))",
+	"probe(make([][]T, 1))",
+	"m = make(map[string]T)\nm[\"a\"] = make(T)\nprobe(m)",
+	"m = map[string]T{}\nprobe(m)",
+	"a = []T{}\na += make(T)\nprobe(a)",
+	"for i = 0; i < 2; i++ { probe(make([]T, 1)) }",
+	"func f() { return make([]T, 1) }\nprobe(f())\nprobe(f())",
+	"p = make(*T)\nprobe(*p)",
+	"c = make(chan T, 1)\nc <- make(T)\nprobe(<-c)",
+	"func g() { return make([]U, 1) }\nmake(type U, 1)\nprobe(g())\nmake(type U, \"s\")\nprobe(g())\nprobe(make([]T, 1))",
+	"make(type V, make([]T, 1))\nprobe(make(V))\nprobe(make([]V, 1))",
+	"r = \"fresh\"\ntry { make(W)\nr = \"W already defined\" } catch e { }\nmake(type W, 1.5)\nprobe(r)\nprobe(make([]W, 1))",
+	"make(type A, 1)\nmodule M { }\nsnap = M\nmake(type B, \"x\")\nr = \"isolated\"\ntry { make(snap.B)\nr = \"later type visible in the snapshot\" } catch e { }\nprobe(r)",
+	"module N { make(type Q, 2) }\nprobe(make(N.Q))\nprobe(make([]N.Q, 1))\nprobe(make([]T, 1))",
+}
+
+// isolationTypes: one shared tree run in environments that bind the type name T differently (each run must equal the run
+// of a freshly parsed tree in an equally prepared environment), and in an environment, its copies made before any run,
+// and an equal freshly built one (all must agree: equal fresh environments, no shared tables).
+func isolationTypes(o *Out) {
+	presets := []struct {
+		name string
+		v    interface{}
+	}{{"int64", int64(0)}, {"string", ""}, {"float64", 1.5}, {"[]bool", []bool{}}, {"int64", int64(0)}}
+	prep := func(i int) func(*env.Env) {
+		return func(e *env.Env) {
+			_ = e.DefineType("T", presets[i].v)
+			_ = e.DefineType("Base", int64(0))
+			_ = e.Define("k", int64(3))
+		}
+	}
+	for _, src := range typeSrcs {
+		shared, err := parser.ParseSrc(src)
+		if err != nil {
+			o.Fail(Failure{Oracle: "isolation-template", Key: "isolation-template-parse", Input: src, Detail: err.Error()})
+			continue
+		}
+		before := dumpTree(shared)
+		want := make([]string, len(presets))
+		for i := range presets {
+			fresh, _ := parser.ParseSrc(src)
+			want[i] = runVMWith(fresh, -1, 2*time.Second, prep(i)).line
+		}
+		if strings.Contains(src, "snap = M") && !strings.Contains(want[0], "trace=((s 69736f6c61746564))") {
+			o.Fail(Failure{Oracle: "environments-isolated", Key: "env-leak:snapshot", Input: src,
+				Detail: "a module value taken before a type was defined resolves that type: " + want[0]})
+		}
+		for i := range presets {
+			got := runVMWith(shared, -1, 2*time.Second, prep(i)).line
+			o.Sum.Evaluations++
+			o.Sum.Hist["type-rebinding-run"]++
+			if got != want[i] {
+				o.Fail(Failure{Oracle: "runs-isolated", Key: "shared-tree-remembers-types", Input: fmt.Sprintf("%s\n--- one tree, run %d, in an environment where T = %s (earlier runs bound T differently)", src, i+1, presets[i].name),
+					Detail: fmt.Sprintf("a freshly parsed tree gives %s; the shared tree gives %s", want[i], got)})
+				break
+			}
+		}
+		var wg sync.WaitGroup
+		got := make([]string, 8)
+		for g := 0; g < 8; g++ {
+			wg.Add(1)
+			go func(g int) {
+				defer wg.Done()
+				got[g] = runVMWith(shared, -1, 5*time.Second, prep(g%4)).line
+			}(g)
+		}
+		wg.Wait()
+		for g := range got {
+			if got[g] != want[g%4] {
+				o.Fail(Failure{Oracle: "concurrent-runs-isolated", Key: "shared-tree-remembers-types:concurrent", Input: fmt.Sprintf("%s\n--- one tree, 8 goroutines, T bound to int64/string/float64/[]bool", src),
+					Detail: fmt.Sprintf("alone with T = %s: %s; goroutine %d: %s", presets[g%4].name, want[g%4], g, got[g])})
+				break
+			}
+		}
+		if after := dumpTree(shared); after != before {
+			o.Fail(Failure{Oracle: "tree-unchanged", Key: "tree-modified", Input: src, Detail: "the parsed tree differs after execution: " + firstDiff(before, after)})
+		}
+		// equal environments: the original, copies taken before any run, an equal new one
+		e1 := env.NewEnv()
+		prep(0)(e1)
+		e2, e3, e4 := e1.DeepCopy(), e1.Copy(), env.NewEnv()
+		prep(0)(e4)
+		var lines []string
+		for _, e := range []*env.Env{e1, e2, e3, e4} {
+			lines = append(lines, runVMOn(e, shared, -1, 2*time.Second).line)
+		}
+		o.Sum.Evaluations++
+		o.Sum.Hist["equal-environments"]++
+		names := []string{"the environment", "its DeepCopy taken beforehand", "its Copy taken beforehand", "an equal new environment"}
+		for i := 1; i < len(lines); i++ {
+			if lines[i] != lines[0] {
+				o.Fail(Failure{Oracle: "environments-isolated", Key: "env-leak:copy", Input: src + "\n--- run in " + names[0] + ", then in " + names[i],
+					Detail: fmt.Sprintf("first: %s; then: %s", lines[0], lines[i])})
+				break
+			}
+		}
+		// concurrently on an environment and its deep copy (race detector)
+		c1 := env.NewEnv()
+		prep(0)(c1)
+		c2 := c1.DeepCopy()
+		var wg2 sync.WaitGroup
+		for _, e := range []*env.Env{c1, c2} {
+			wg2.Add(1)
+			go func(e *env.Env) {
+				defer wg2.Done()
+				_ = runVMOn(e, shared, -1, 5*time.Second)
+			}(e)
+		}
+		wg2.Wait()
+	}
 }
